@@ -51,6 +51,8 @@ pub fn cells(tier: Tier) -> Vec<CellPlan> {
         EvOp::EmitS(SK::E1, Mode::Broadcast, None),
         EvOp::EmitC(0, CK::C1, None),
         EvOp::EmitCStale(0),
+        EvOp::DisconnectSlowly(0),
+        EvOp::ConnectSlowly(0),
     ];
     c.rounds = if q { 3 } else { 4 };
     v.push(plan(c.clone(), if q { 1 } else { 2 }, 3.0));
